@@ -1,161 +1,43 @@
-From Coq Require Import List ZArith Bool Lia Sorting.Sorted Permutation.
+From Coq Require Import List ZArith Bool Lia Arith Sorting.Sorted Permutation.
 From SR Require Import Model.Events.
 Import ListNotations.
 Open Scope Z_scope.
 
 (* ------------------------------------------------------------------ *)
-(* Specification of one emission frame                                  *)
+(* Small list facts                                                     *)
 (* ------------------------------------------------------------------ *)
 
-Definition canceller (k : hkind) (c : call) : bool :=
-  kind_eqb k KCancel && r_cancel (call_r c).
-
-Definition local_ok (hs : list handler) (fr : frame) : Prop :=
-  match fr with
-  | Frame h vin calls vout c =>
-      exists hd, nth_error hs h = Some hd /\
-        let k := h_kind hd in
-        (* not cancelled: every subscribed listener, once, in the handler's order *)
-        (c = false -> map call_l calls = h_ls hd /\ Forall (fun cl => canceller k cl = false) calls) /\
-        (* cancelled: only a cancelable handler; the listeners called are the prefix of the
-           handler's order up to and including the first one that cancels *)
-        (c = true -> k = KCancel /\
-           exists pre lst post, calls = pre ++ [lst] /\ h_ls hd = map call_l calls ++ post /\
-             r_cancel (call_r lst) = true /\ Forall (fun cl => canceller k cl = false) pre) /\
-        (* the value each listener sees / the value logged and returned *)
-        threaded k vin calls vout
-  end.
-
-Fixpoint all_frames (fr : frame) : list frame :=
-  fr :: match fr with
-        | Frame _ _ calls _ _ => flat_map all_frames_call calls
-        end
-with all_frames_call (c : call) : list frame :=
-  match c with Call _ _ _ subs => flat_map all_frames subs end.
-
-Definition subs_ok (hs : list handler) (cl : call) : Prop :=
-  Forall (fun fr => Forall (local_ok hs) (all_frames fr)) (call_subs cl).
-
-Definition good_emitter (E : emitter) : Prop :=
-  forall w h v w' c v' fr, E w h v = Some (w', c, v', fr) ->
-    hs w' = hs w /\ loggers w' = loggers w /\ next_id w' = next_id w /\
-    trace w' = trace w ++ flatten (loggers w) fr /\
-    Forall (local_ok (hs w)) (all_frames fr).
-
-Lemma good_emit0 : good_emitter (emit 0).
-Proof. intros w h v w' c v' fr H; discriminate. Qed.
-
-Lemma nested_spec E (GE : good_emitter E) : forall ns w w' frs,
-  nested E w ns = Some (w', frs) ->
-  hs w' = hs w /\ loggers w' = loggers w /\ next_id w' = next_id w /\
-  trace w' = trace w ++ flat_map (flatten (loggers w)) frs /\
-  Forall (fun fr => Forall (local_ok (hs w)) (all_frames fr)) frs.
+Lemma skipn_firstn_nth {A} : forall (a : list A) (i N : nat) (l : A),
+  nth_error a i = Some l -> (i < N)%nat ->
+  skipn i (firstn N a) = l :: skipn (S i) (firstn N a).
 Proof.
-  induction ns as [|[h v] ns IH]; intros w w' frs H; cbn [nested] in H.
-  - inversion H; subst. cbn. rewrite app_nil_r. auto.
-  - destruct (E w h v) as [[[[w1 c1] v1] fr]|] eqn:HE; [|discriminate].
-    destruct (nested E w1 ns) as [[w2 frs2]|] eqn:HN; [|discriminate].
-    inversion H; subst; clear H.
-    apply GE in HE. destruct HE as (Hh & Hl & Hn & Ht & Hf).
-    apply IH in HN. destruct HN as (Hh2 & Hl2 & Hn2 & Ht2 & Hf2).
-    repeat split; try congruence.
-    + cbn [flat_map]. rewrite Ht2, Ht, Hl, app_assoc. reflexivity.
-    + constructor; [exact Hf|]. rewrite Hh in Hf2. exact Hf2.
+  induction a as [|x a IH]; intros i N l Hn Hlt.
+  - destruct i; discriminate.
+  - destruct N as [|N]; [lia|]. destruct i as [|i].
+    + cbn in Hn. inversion Hn; subst. reflexivity.
+    + cbn [nth_error] in Hn. cbn [firstn]. cbn [skipn].
+      rewrite (IH i N l Hn) by lia. reflexivity.
 Qed.
 
-Lemma pop_hs w rs : hs (set_reacts w rs) = hs w. Proof. reflexivity. Qed.
-
-Lemma deliver_spec E (GE : good_emitter E) k h : forall ls w v w' c v' cls,
-  deliver E k h w ls v = Some (w', c, v', cls) ->
-  hs w' = hs w /\ loggers w' = loggers w /\ next_id w' = next_id w /\
-  trace w' = trace w ++ flat_map (flatten_call (loggers w) h) cls /\
-  threaded k v cls v' /\
-  (c = false -> map call_l cls = ls /\ Forall (fun cl => canceller k cl = false) cls) /\
-  (c = true -> k = KCancel /\
-     exists pre lst post, cls = pre ++ [lst] /\ ls = map call_l cls ++ post /\
-       r_cancel (call_r lst) = true /\ Forall (fun cl => canceller k cl = false) pre) /\
-  Forall (subs_ok (hs w)) cls.
+Lemma firstn_app_le {A} (a b : list A) n : (n <= length a)%nat -> firstn n (a ++ b) = firstn n a.
 Proof.
-  induction ls as [|l rest IH]; intros w v w' c v' cls H; cbn [deliver] in H.
-  - inversion H; subst. cbn. rewrite app_nil_r.
-    repeat split; auto; try discriminate.
-  - destruct (pop (reacts (add_trace w [ICall (l_id l) h v])) (l_id l)) as [r rs'] eqn:HP.
-    match type of H with context [nested E ?W ?N] =>
-      destruct (nested E W N) as [[w3 subs]|] eqn:HN; [|discriminate] end.
-    apply (nested_spec E GE) in HN. cbn [hs loggers next_id trace set_reacts add_trace] in HN.
-    destruct HN as (Hh & Hl & Hn & Ht & Hf).
-    destruct (kind_eqb k KCancel && r_cancel r) eqn:HC.
-    + inversion H; subst; clear H.
-      apply andb_prop in HC. destruct HC as [HK HR].
-      assert (k = KCancel) by (destruct k; cbn in HK; congruence). subst k.
-      split; [exact Hh|]. split; [exact Hl|]. split; [exact Hn|].
-      split. { cbn [flat_map flatten_call]. rewrite Ht, app_nil_r, <- app_assoc. reflexivity. }
-      split. { cbn. auto. }
-      split. { discriminate. }
-      split. { intros _. split; [reflexivity|].
-               exists [], (Call l v r subs), rest. cbn. repeat split; auto. }
-      constructor; [exact Hf|constructor].
-    + destruct (deliver E k h w3 rest _) as [[[[w4 c4] v4] cls4]|] eqn:HD; [|discriminate].
-      inversion H; subst; clear H.
-      apply IH in HD. destruct HD as (Hh4 & Hl4 & Hn4 & Ht4 & Hth & Hnc & Hc & Hs).
-      split; [congruence|]. split; [congruence|]. split; [congruence|].
-      split. { cbn [flat_map flatten_call]. rewrite Ht4, Ht, Hl. rewrite <- !app_assoc. reflexivity. }
-      split. { cbn [threaded call_v]. split; [reflexivity|]. exact Hth. }
-      split. { intros Hcf. destruct (Hnc Hcf) as [E1 E2]. split; [cbn; f_equal; exact E1|].
-               constructor; [exact HC|exact E2]. }
-      split. { intros Hct. destruct (Hc Hct) as (Hk & pre & lst & post & E1 & E2 & E3 & E4).
-               split; [exact Hk|].
-               exists (Call l v r subs :: pre), lst, post. subst cls4. cbn.
-               split; [reflexivity|]. split; [f_equal; exact E2|]. split; [exact E3|].
-               constructor; [exact HC|exact E4]. }
-      constructor; [exact Hf|]. rewrite Hh in Hs. exact Hs.
+  intros H. rewrite firstn_app. replace (n - length a)%nat with O by lia.
+  cbn. apply app_nil_r.
 Qed.
 
-Lemma flat_map_all_frames_subs hs0 cls :
-  Forall (subs_ok hs0) cls -> Forall (local_ok hs0) (flat_map all_frames_call cls).
+Lemma nth_error_update_nth_eq {A} (f : A -> A) : forall (l : list A) n x,
+  nth_error l n = Some x -> nth_error (update_nth n f l) n = Some (f x).
 Proof.
-  induction 1 as [|cl cls Hc _ IH]; cbn; [constructor|].
-  apply Forall_app; split; [|exact IH].
-  destruct cl as [l v r subs]. unfold subs_ok in Hc. cbn in *.
-  induction Hc as [|fr frs Hfr _ IH2]; cbn; [constructor|].
-  apply Forall_app; split; assumption.
+  induction l as [|y l IH]; intros n x H; destruct n; cbn in *; try discriminate.
+  - inversion H; reflexivity.
+  - apply IH; exact H.
 Qed.
 
-Lemma good_emit_step E : good_emitter E ->
-  good_emitter (fun w h v =>
-      match nth_error (hs w) h with
-      | None => None
-      | Some hd =>
-          match deliver E (h_kind hd) h w (h_ls hd) v with
-          | None => None
-          | Some (w1, c, v', cls) =>
-              Some (add_trace w1 (log_items (loggers w1) h v' c ++ [IRet h c v']), c, v',
-                    Frame h v cls v' c)
-          end
-      end).
+Lemma nth_error_update_nth_neq {A} (f : A -> A) : forall (l : list A) n m,
+  n <> m -> nth_error (update_nth n f l) m = nth_error l m.
 Proof.
-  intros GE w h v w' c v' fr H.
-  destruct (nth_error (hs w) h) as [hd|] eqn:Hnth; [|discriminate].
-  destruct (deliver E (h_kind hd) h w (h_ls hd) v) as [[[[w1 c1] v1] cls]|] eqn:HD; [|discriminate].
-  inversion H; subst; clear H.
-  apply (deliver_spec E GE) in HD.
-  destruct HD as (Hh & Hl & Hn & Ht & Hth & Hnc & Hc & Hs).
-  cbn [hs loggers next_id trace add_trace].
-  repeat split; auto.
-  - cbn [flatten]. rewrite Ht, Hl, <- !app_assoc. reflexivity.
-  - cbn [all_frames]. constructor.
-    + cbn. exists hd. split; [exact Hnth|]. cbn. repeat split; auto.
-      * apply Hnc; assumption.
-      * apply Hnc; assumption.
-      * apply Hc; assumption.
-      * apply Hc; assumption.
-    + apply flat_map_all_frames_subs. exact Hs.
-Qed.
-
-Theorem emit_good : forall fuel, good_emitter (emit fuel).
-Proof.
-  induction fuel as [|f IH]; [exact good_emit0|].
-  cbn [emit]. apply good_emit_step. exact IH.
+  induction l as [|y l IH]; intros n m H; destruct n, m; cbn; try reflexivity; try congruence.
+  apply IH. congruence.
 Qed.
 
 (* ------------------------------------------------------------------ *)
@@ -167,20 +49,17 @@ Definition prio_sorted (ls : list listener) : Prop :=
 Definition ids_increasing (ls : list listener) : Prop :=
   StronglySorted (fun a b => l_id a < l_id b) ls.
 
-Definition handler_wf (bound : Z) (hd : handler) : Prop :=
-  Forall (fun l => l_id l < bound) (h_ls hd) /\
-  NoDup (map l_id (h_ls hd)) /\
-  match h_kind hd with
-  | KSimple => ids_increasing (h_ls hd)        (* = subscription order: ids are a counter *)
-  | _ => prio_sorted (h_ls hd)
+(* unique listeners; simple handlers keep subscription order (ids are a counter), the
+   others ascending priority *)
+Definition table_ok (k : hkind) (ls : list listener) : Prop :=
+  NoDup (map l_id ls) /\
+  match k with
+  | KSimple => ids_increasing ls
+  | _ => prio_sorted ls
   end.
 
-Lemma insert_prio_in l ls x : In x (insert_prio l ls) <-> x = l \/ In x ls.
-Proof.
-  induction ls as [|y ls IH]; cbn.
-  - intuition.
-  - destruct (l_prio l <? l_prio y); cbn; rewrite ?IH; intuition.
-Qed.
+Definition handler_wf (bound : Z) (hd : handler) : Prop :=
+  Forall (fun l => l_id l < bound) (h_ls hd) /\ table_ok (h_kind hd) (h_ls hd).
 
 Lemma insert_prio_perm l ls : Permutation (l :: ls) (insert_prio l ls).
 Proof.
@@ -213,9 +92,20 @@ Proof.
   - exists [], []. repeat split; constructor.
   - destruct (l_prio l <? l_prio y) eqn:E.
     + exists [], (y :: ls). apply Z.ltb_lt in E. repeat split; auto.
-    + destruct IH as (a & b & E1 & E2 & E3 & E4). apply Z.ltb_ge in E.
+    + destruct IH as (a & b & E1 & E2 & E4 & E5). apply Z.ltb_ge in E.
       exists (y :: a), b. subst ls. cbn. rewrite E2. repeat split; auto.
 Qed.
+
+Lemma insert_prio_length l ls : length (insert_prio l ls) = S (length ls).
+Proof. rewrite <- (Permutation_length (insert_prio_perm l ls)). reflexivity. Qed.
+
+Lemma ins_perm k l ls : Permutation (l :: ls) (ins k l ls).
+Proof.
+  destruct k; cbn [ins]; try apply insert_prio_perm. apply Permutation_cons_append.
+Qed.
+
+Lemma ins_length k l ls : length (ins k l ls) = S (length ls).
+Proof. rewrite <- (Permutation_length (ins_perm k l ls)). reflexivity. Qed.
 
 Lemma NoDup_app_local {A} (l : list A) x : NoDup l -> ~ In x l -> NoDup (l ++ [x]).
 Proof.
@@ -238,141 +128,566 @@ Proof.
     apply Forall_app; split; [assumption|]. constructor; [assumption|constructor].
 Qed.
 
-Lemma subscribe_wf b hd prio : handler_wf b hd -> handler_wf (b + 1) (subscribe_h hd (mkL b prio)).
+Lemma ins_table_ok b k prio ls :
+  Forall (fun l => l_id l < b) ls -> table_ok k ls ->
+  Forall (fun l => l_id l < b + 1) (ins k (mkL b prio) ls) /\ table_ok k (ins k (mkL b prio) ls).
 Proof.
-  intros (Hb & Hnd & Hk).
-  assert (Hnotin : ~ In b (map l_id (h_ls hd))).
+  intros Hb (Hnd & Hk).
+  assert (Hnotin : ~ In b (map l_id ls)).
   { intros Hin. apply in_map_iff in Hin. destruct Hin as (x & Hx & Hin).
     rewrite Forall_forall in Hb. apply Hb in Hin. lia. }
-  assert (Hb' : Forall (fun l => l_id l < b + 1) (h_ls hd)).
+  assert (Hb' : Forall (fun l => l_id l < b + 1) ls).
   { eapply Forall_impl; [|exact Hb]. cbn; intros; lia. }
-  assert (HP : forall k, k <> KSimple -> h_kind hd = k ->
-     handler_wf (b + 1) (mkH k (insert_prio (mkL b prio) (h_ls hd)))).
-  { intros k Hne Hkd. unfold handler_wf. cbn [h_ls h_kind].
-    pose proof (insert_prio_perm (mkL b prio) (h_ls hd)) as HPm.
-    split; [|split].
-    - eapply Permutation_Forall; [exact HPm|]. constructor; [cbn; lia|exact Hb'].
-    - eapply Permutation_NoDup; [apply Permutation_map; exact HPm|].
-      cbn. constructor; assumption.
-    - rewrite Hkd in Hk. destruct k; try congruence; apply insert_prio_sorted; exact Hk. }
-  unfold subscribe_h. destruct (h_kind hd) eqn:K.
-  - unfold handler_wf; cbn [h_ls h_kind]. split; [|split].
-    + apply Forall_app; split; [exact Hb'|]. constructor; [cbn; lia|constructor].
-    + rewrite map_app. cbn. apply NoDup_app_local; auto.
-    + apply ids_increasing_snoc; [exact Hk|exact Hb].
-  - apply HP; [discriminate|reflexivity].
-  - apply HP; [discriminate|reflexivity].
-  - apply HP; [discriminate|reflexivity].
+  pose proof (ins_perm k (mkL b prio) ls) as HPm.
+  split; [|split].
+  - eapply Permutation_Forall; [exact HPm|]. constructor; [cbn; lia|exact Hb'].
+  - eapply Permutation_NoDup; [apply Permutation_map; exact HPm|].
+    cbn. constructor; assumption.
+  - destruct k; cbn [ins]; try (apply insert_prio_sorted; exact Hk).
+    apply ids_increasing_snoc; [exact Hk|exact Hb].
+Qed.
+
+Lemma subscribe_h_shape hd l hd' : subscribe_h hd l = Some hd' ->
+  h_kind hd' = h_kind hd /\ h_ls hd' = ins (h_kind hd) l (h_ls hd).
+Proof.
+  unfold subscribe_h. intros H. destruct (h_kind hd) eqn:K.
+  - destruct (Nat.ltb (length (h_ls hd)) (h_cap hd)).
+    + inversion H; subst; clear H. cbn. auto.
+    + destruct (grow (h_cap hd)) as [c'|]; [|discriminate].
+      inversion H; subst; clear H. cbn. auto.
+  - inversion H; subst; clear H. cbn. auto.
+  - inversion H; subst; clear H. cbn. auto.
+  - inversion H; subst; clear H. cbn. auto.
+Qed.
+
+Lemma subscribe_h_wf b hd prio hd' :
+  handler_wf b hd -> subscribe_h hd (mkL b prio) = Some hd' -> handler_wf (b + 1) hd'.
+Proof.
+  intros (Hb & Ht) H. apply subscribe_h_shape in H. destruct H as (Hk & Hl).
+  unfold handler_wf. rewrite Hk, Hl. apply ins_table_ok; assumption.
 Qed.
 
 Definition world_wf (w : world) : Prop := Forall (handler_wf (next_id w)) (hs w).
 
-Lemma update_nth_Forall {A} (P Q : A -> Prop) f : (forall x, P x -> Q x) -> (forall x, P x -> Q (f x)) ->
-  forall n l, Forall P l -> Forall Q (update_nth n f l).
+Lemma update_nth_Forall {A} (P Q : A -> Prop) f : (forall x, P x -> Q x) ->
+  forall n l x, nth_error l n = Some x -> Q (f x) -> Forall P l -> Forall Q (update_nth n f l).
 Proof.
-  intros HPQ Hf n l. revert n. induction l as [|x l IH]; intros n H; cbn.
+  intros HPQ n l. revert n. induction l as [|y l IH]; intros n x Hn Hq H; cbn.
   - destruct n; constructor.
-  - inversion H; subst. destruct n; constructor; auto.
-    eapply Forall_impl; [|eassumption]. exact HPQ.
-Qed.
-
-Lemma step_wf fuel w o w' fo : world_wf w -> step fuel w o = Some (w', fo) -> world_wf w'.
-Proof.
-  unfold world_wf. intros Hw H. destruct o as [h prio rs|h v|lgs]; cbn [step] in H.
-  - inversion H; subst; clear H. cbn [hs next_id].
-    eapply update_nth_Forall; [| |exact Hw].
-    + intros hd. apply handler_wf_mono. lia.
-    + intros hd. apply subscribe_wf.
-  - destruct (emit fuel w h v) as [[[[w1 c] v1] fr]|] eqn:HE; [|discriminate].
-    inversion H; subst; clear H.
-    apply emit_good in HE. destruct HE as (Hh & _ & Hn & _). rewrite Hh, Hn. exact Hw.
-  - inversion H; subst. exact Hw.
+  - inversion H; subst. destruct n; cbn in Hn.
+    + inversion Hn; subst. constructor; [exact Hq|].
+      eapply Forall_impl; [|eassumption]. exact HPQ.
+    + constructor; [auto|]. eapply IH; eassumption.
 Qed.
 
 Lemma init_wf kinds : world_wf (init kinds).
 Proof.
   unfold world_wf, init. cbn. induction kinds as [|k ks IH]; cbn; constructor; [|exact IH].
-  unfold handler_wf. cbn. repeat split; try constructor. destruct k; constructor.
+  unfold handler_wf, table_ok. cbn. repeat split; try constructor. destruct k; constructor.
 Qed.
 
-Definition frame_record_ok (x : list handler * list Z * frame) : Prop :=
-  let '(hs0, lgs, fr) := x in
-  (exists b, Forall (handler_wf b) hs0) /\ Forall (local_ok hs0) (all_frames fr).
+(* ------------------------------------------------------------------ *)
+(* Backing arrays: what a running listener loop can observe             *)
+(* ------------------------------------------------------------------ *)
 
-Definition flatten_record (x : list handler * list Z * frame) : list item :=
-  let '(_, lgs, fr) := x in flatten lgs fr.
+(* an array, once it exists, only ever grows at its end: nothing is written below its length *)
+Definition hd_evolves (hd hd' : handler) : Prop :=
+  h_kind hd' = h_kind hd /\
+  forall g a, arr hd g = Some a -> exists tl, arr hd' g = Some (a ++ tl).
 
-Theorem run_spec fuel : forall ops w w' frs, world_wf w ->
-  run fuel w ops = Some (w', frs) ->
-  world_wf w' /\ trace w' = trace w ++ flat_map flatten_record frs /\ Forall frame_record_ok frs.
+Definition evolves (w w' : world) : Prop :=
+  forall h hd, nth_error (hs w) h = Some hd ->
+    exists hd', nth_error (hs w') h = Some hd' /\ hd_evolves hd hd'.
+
+Lemma hd_evolves_refl hd : hd_evolves hd hd.
 Proof.
-  induction ops as [|o ops IH]; intros w w' frs Hw H; cbn [run] in H.
-  - inversion H; subst. cbn. rewrite app_nil_r. auto.
-  - destruct (step fuel w o) as [[w1 fo]|] eqn:HS; [|discriminate].
-    destruct (run fuel w1 ops) as [[w2 frs2]|] eqn:HR; [|discriminate].
-    inversion H; subst; clear H.
-    pose proof (step_wf _ _ _ _ _ Hw HS) as Hw1.
-    destruct (IH _ _ _ Hw1 HR) as (Hw2 & Ht & Hf).
-    split; [exact Hw2|].
-    destruct o as [h prio rs|h v|lgs]; cbn [step] in HS.
-    + inversion HS; subst; clear HS. cbn [trace] in Ht. auto.
-    + destruct (emit fuel w h v) as [[[[w1' c] v1] fr]|] eqn:HE; [|discriminate].
-      inversion HS; subst; clear HS.
-      apply emit_good in HE. destruct HE as (Hh & Hl & Hn & Htr & Hfr).
+  split; [reflexivity|]. intros g a Ha. exists []. rewrite app_nil_r. exact Ha.
+Qed.
+
+Lemma evolves_same_hs w w' : hs w' = hs w -> evolves w w'.
+Proof.
+  intros E h hd Hn. exists hd. rewrite E. split; [exact Hn|]. apply hd_evolves_refl.
+Qed.
+
+Lemma evolves_trans w w1 w2 : evolves w w1 -> evolves w1 w2 -> evolves w w2.
+Proof.
+  intros H1 H2 h hd Hn.
+  destruct (H1 h hd Hn) as (hd1 & Hn1 & Hk1 & Ha1).
+  destruct (H2 h hd1 Hn1) as (hd2 & Hn2 & Hk2 & Ha2).
+  exists hd2. split; [exact Hn2|]. split; [congruence|].
+  intros g a Ha.
+  destruct (Ha1 g a Ha) as (t1 & Hg1).
+  destruct (Ha2 g _ Hg1) as (t2 & Hg2).
+  exists (t1 ++ t2). rewrite app_assoc. exact Hg2.
+Qed.
+
+Lemma arr_le hd g a : arr hd g = Some a -> (g <= h_gen hd)%nat.
+Proof.
+  unfold arr. destruct (Nat.eqb g (h_gen hd)) eqn:E.
+  - apply Nat.eqb_eq in E. lia.
+  - destruct (Nat.ltb g (h_gen hd)) eqn:E2; [|discriminate]. apply Nat.ltb_lt in E2. lia.
+Qed.
+
+Lemma arr_current hd : arr hd (h_gen hd) = Some (h_ls hd).
+Proof. unfold arr. rewrite Nat.eqb_refl. reflexivity. Qed.
+
+Lemma realloc_arr k ls' c' hd g a : arr hd g = Some a ->
+  arr (mkH k ls' c' (S (h_gen hd)) ((h_gen hd, h_ls hd) :: h_old hd)) g = Some a.
+Proof.
+  intros Ha. pose proof (arr_le _ _ _ Ha) as Hle.
+  unfold arr in *. cbn [h_gen h_ls h_old lookup_arr].
+  destruct (Nat.eqb g (S (h_gen hd))) eqn:E1; [apply Nat.eqb_eq in E1; lia|].
+  assert (Nat.ltb g (S (h_gen hd)) = true) as -> by (apply Nat.ltb_lt; lia).
+  destruct (Nat.eqb g (h_gen hd)) eqn:E; [exact Ha|].
+  destruct (Nat.ltb g (h_gen hd)); [exact Ha|discriminate].
+Qed.
+
+(* Subscribe: every array that exists keeps its contents; the only write into an existing
+   array is a simple handler's append at index len *)
+Lemma subscribe_h_arr hd l hd' : subscribe_h hd l = Some hd' -> hd_evolves hd hd'.
+Proof.
+  intros H. pose proof (subscribe_h_shape _ _ _ H) as (Hk & Hl).
+  split; [exact Hk|]. intros g a Ha.
+  unfold subscribe_h in H. destruct (h_kind hd) eqn:K.
+  - destruct (Nat.ltb (length (h_ls hd)) (h_cap hd)).
+    + (* in place, at the end *)
+      inversion H; subst hd'; clear H. unfold arr in *. cbn [h_gen h_ls h_old] in *.
+      destruct (Nat.eqb g (h_gen hd)) eqn:E.
+      * inversion Ha; subst a. exists [l]. reflexivity.
+      * exists []. rewrite app_nil_r. exact Ha.
+    + destruct (grow (h_cap hd)) as [c'|]; [|discriminate].
+      inversion H; subst hd'; clear H. exists []. rewrite app_nil_r. apply realloc_arr. exact Ha.
+  - inversion H; subst hd'; clear H. exists []. rewrite app_nil_r. apply realloc_arr. exact Ha.
+  - inversion H; subst hd'; clear H. exists []. rewrite app_nil_r. apply realloc_arr. exact Ha.
+  - inversion H; subst hd'; clear H. exists []. rewrite app_nil_r. apply realloc_arr. exact Ha.
+Qed.
+
+(* ------------------------------------------------------------------ *)
+(* Specification of one emission frame                                  *)
+(* ------------------------------------------------------------------ *)
+
+Definition canceller (k : hkind) (c : call) : bool :=
+  kind_eqb k KCancel && r_cancel (call_r c).
+
+(* DELIVERY: the listeners called are exactly those subscribed when Emit was entered, each
+   once, in the handler's order - all of them without a cancellation, a prefix with one *)
+Definition delivery_ok (fr : frame) : Prop :=
+  match fr with
+  | Frame h k ls0 vin calls vout c lgs =>
+      (c = false -> map call_l calls = ls0) /\
+      (c = true -> exists post, ls0 = map call_l calls ++ post)
+  end.
+
+(* CANCELLATION: reported iff some listener cancels, only by a cancelable handler; the loop
+   stops at the first canceller *)
+Definition cancel_ok (fr : frame) : Prop :=
+  match fr with
+  | Frame h k ls0 vin calls vout c lgs =>
+      (c = false -> length calls = length ls0 /\
+                    (k = KCancel -> Forall (fun cl => r_cancel (call_r cl) = false) calls)) /\
+      (c = true -> k = KCancel /\ (length calls <= length ls0)%nat /\
+         exists pre lst, calls = pre ++ [lst] /\ r_cancel (call_r lst) = true /\
+           Forall (fun cl => r_cancel (call_r cl) = false) pre)
+  end.
+
+Definition frame_ok (fr : frame) : Prop :=
+  match fr with
+  | Frame h k ls0 vin calls vout c lgs =>
+      table_ok k ls0 /\ cancel_ok fr /\ threaded k vin calls vout /\ delivery_ok fr
+  end.
+
+(* ------------------------------------------------------------------ *)
+(* The history as a flat list of events, replayed by the specification  *)
+(* ------------------------------------------------------------------ *)
+
+Definition subs_of (h : nat) (subs : list (nat * listener)) : list listener :=
+  flat_map (fun p => if Nat.eqb (fst p) h then [snd p] else []) subs.
+
+(* [subs]: every Subscribe so far, in order; [cur]: argument of the latest InitLoggers *)
+Fixpoint consistent (subs : list (nat * listener)) (cur : list Z) (es : list ev) : Prop :=
+  match es with
+  | [] => True
+  | EStart h ls0 :: r => Permutation ls0 (subs_of h subs) /\ consistent subs cur r
+  | ESub h l :: r => consistent (subs ++ [(h, l)]) cur r
+  | EInit lgs :: r => consistent subs lgs r
+  | EDone _ _ _ lgs :: r => lgs = cur /\ consistent subs cur r
+  end.
+
+Fixpoint replay_subs (subs : list (nat * listener)) (es : list ev) : list (nat * listener) :=
+  match es with
+  | [] => subs
+  | ESub h l :: r => replay_subs (subs ++ [(h, l)]) r
+  | _ :: r => replay_subs subs r
+  end.
+Fixpoint replay_cur (cur : list Z) (es : list ev) : list Z :=
+  match es with
+  | [] => cur
+  | EInit lgs :: r => replay_cur lgs r
+  | _ :: r => replay_cur cur r
+  end.
+
+Lemma replay_subs_app subs a b : replay_subs subs (a ++ b) = replay_subs (replay_subs subs a) b.
+Proof. revert subs. induction a as [|e a IH]; intros subs; [reflexivity|]. destruct e; cbn; apply IH. Qed.
+Lemma replay_cur_app cur a b : replay_cur cur (a ++ b) = replay_cur (replay_cur cur a) b.
+Proof. revert cur. induction a as [|e a IH]; intros cur; [reflexivity|]. destruct e; cbn; apply IH. Qed.
+
+Lemma consistent_app subs cur a b :
+  consistent subs cur (a ++ b) <->
+  consistent subs cur a /\ consistent (replay_subs subs a) (replay_cur cur a) b.
+Proof.
+  revert subs cur. induction a as [|e a IH]; intros subs cur; cbn [app consistent replay_subs replay_cur].
+  - tauto.
+  - destruct e; cbn [consistent replay_subs replay_cur]; rewrite ?IH; tauto.
+Qed.
+
+Definition rel (w : world) (subs : list (nat * listener)) (cur : list Z) : Prop :=
+  loggers w = cur /\
+  forall h hd, nth_error (hs w) h = Some hd -> Permutation (h_ls hd) (subs_of h subs).
+
+(* ------------------------------------------------------------------ *)
+(* What a stretch of execution guarantees                               *)
+(* ------------------------------------------------------------------ *)
+
+(* from w to w', having produced trace items T, frames F, events Ev *)
+Definition good (w w' : world) (T : list item) (F : list frame) (Ev : list ev) : Prop :=
+  world_wf w' /\ evolves w w' /\ trace w' = trace w ++ T /\ Forall frame_ok F /\
+  forall subs cur, rel w subs cur ->
+    consistent subs cur Ev /\ rel w' (replay_subs subs Ev) (replay_cur cur Ev).
+
+Lemma good_refl w : world_wf w -> good w w [] [] [].
+Proof.
+  intros Hw. split; [exact Hw|]. split; [apply evolves_same_hs; reflexivity|].
+  split; [symmetry; apply app_nil_r|]. split; [constructor|].
+  intros subs cur HR. split; [exact I|exact HR].
+Qed.
+
+Lemma good_trans w w1 w2 T1 T2 F1 F2 E1 E2 :
+  good w w1 T1 F1 E1 -> good w1 w2 T2 F2 E2 ->
+  good w w2 (T1 ++ T2) (F1 ++ F2) (E1 ++ E2).
+Proof.
+  intros (Hw1 & Hev1 & Ht1 & Hf1 & Hc1) (Hw2 & Hev2 & Ht2 & Hf2 & Hc2).
+  split; [exact Hw2|]. split; [eapply evolves_trans; eassumption|].
+  split; [rewrite Ht2, Ht1, app_assoc; reflexivity|].
+  split; [apply Forall_app; split; assumption|].
+  intros subs cur HR. destruct (Hc1 subs cur HR) as [C1 R1].
+  destruct (Hc2 _ _ R1) as [C2 R2].
+  rewrite consistent_app, replay_subs_app, replay_cur_app. auto.
+Qed.
+
+(* steps that touch neither the handlers nor the loggers nor the id counter *)
+Lemma good_silent w w' T :
+  world_wf w -> hs w' = hs w -> loggers w' = loggers w -> next_id w' = next_id w ->
+  trace w' = trace w ++ T -> good w w' T [] [].
+Proof.
+  intros Hw Hh Hl Hn Ht. split; [unfold world_wf; rewrite Hh, Hn; exact Hw|].
+  split; [apply evolves_same_hs; exact Hh|]. split; [exact Ht|]. split; [constructor|].
+  intros subs cur [R1 R2]. split; [exact I|]. cbn. split; [congruence|]. rewrite Hh. exact R2.
+Qed.
+
+Lemma good_add_frames w w' T F E F' :
+  Forall frame_ok F' -> good w w' T F E -> good w w' T (F' ++ F) E.
+Proof.
+  intros HF (H1 & H2 & H3 & H4 & H5). split; [exact H1|]. split; [exact H2|]. split; [exact H3|].
+  split; [apply Forall_app; split; assumption|exact H5].
+Qed.
+
+Lemma good_start w h hd v : world_wf w -> nth_error (hs w) h = Some hd ->
+  good w (add_trace w [IEmit h v]) [IEmit h v] [] [EStart h (h_ls hd)].
+Proof.
+  intros Hw Hn. split; [exact Hw|]. split; [apply evolves_same_hs; reflexivity|].
+  split; [reflexivity|]. split; [constructor|].
+  intros subs cur [R1 R2]. cbn. split; [split; [apply R2; exact Hn|exact I]|].
+  split; [exact R1|exact R2].
+Qed.
+
+Lemma good_done w h v c : world_wf w ->
+  good w (add_trace w (log_items (loggers w) h v c ++ [IRet h c v]))
+       (log_items (loggers w) h v c ++ [IRet h c v]) [] [EDone h v c (loggers w)].
+Proof.
+  intros Hw. split; [exact Hw|]. split; [apply evolves_same_hs; reflexivity|].
+  split; [reflexivity|]. split; [constructor|].
+  intros subs cur [R1 R2]. cbn. split; [split; [exact R1|exact I]|].
+  split; [exact R1|exact R2].
+Qed.
+
+Lemma good_init_loggers w lgs : world_wf w ->
+  good w (init_loggers w lgs) [IInit lgs] [] [EInit lgs].
+Proof.
+  intros Hw. split; [exact Hw|]. split; [apply evolves_same_hs; reflexivity|].
+  split; [reflexivity|]. split; [constructor|].
+  intros subs cur [R1 R2]. cbn. split; [exact I|]. split; [reflexivity|exact R2].
+Qed.
+
+Lemma subs_of_app h a b : subs_of h (a ++ b) = subs_of h a ++ subs_of h b.
+Proof. unfold subs_of. apply flat_map_app. Qed.
+
+Lemma good_subscribe w h prio rs w' ch : world_wf w ->
+  subscribe w h prio rs = Ok (w', ch) ->
+  good w w' (flatten_child ch) [] (events_child ch).
+Proof.
+  intros Hw H. unfold subscribe in H.
+  destruct (nth_error (hs w) h) as [hd|] eqn:Hn; [|discriminate].
+  destruct (subscribe_h hd (mkL (next_id w) prio)) as [hd'|] eqn:HS; [|discriminate].
+  inversion H; subst w' ch; clear H.
+  pose proof (subscribe_h_shape _ _ _ HS) as (Hk & Hl).
+  cbn [flatten_child events_child l_id l_prio].
+  split; [|split; [|split; [|split]]].
+  - unfold world_wf. cbn [hs next_id].
+    eapply update_nth_Forall; [| exact Hn | | exact Hw].
+    + intros x. apply handler_wf_mono. lia.
+    + eapply subscribe_h_wf; [|exact HS].
+      unfold world_wf in Hw. rewrite Forall_forall in Hw. apply Hw.
+      eapply nth_error_In; exact Hn.
+  - intros h1 hd1 Hn1. cbn [hs].
+    destruct (Nat.eq_dec h h1) as [->|Hne].
+    + rewrite Hn in Hn1. inversion Hn1; subst hd1.
+      exists hd'. split; [erewrite nth_error_update_nth_eq; [reflexivity|exact Hn]|].
+      eapply subscribe_h_arr; exact HS.
+    + exists hd1. split; [rewrite nth_error_update_nth_neq; assumption|].
+      apply hd_evolves_refl.
+  - reflexivity.
+  - constructor.
+  - intros subs cur [R1 R2]. cbn [consistent replay_subs replay_cur].
+    split; [exact I|]. split; [exact R1|].
+    intros h1 hd1 Hn1. cbn [hs] in Hn1. rewrite subs_of_app.
+    destruct (Nat.eq_dec h h1) as [->|Hne].
+    + erewrite nth_error_update_nth_eq in Hn1; [|exact Hn]. inversion Hn1; subst hd1.
+      rewrite Hl. cbn [subs_of flat_map fst snd]. rewrite Nat.eqb_refl. cbn [app].
+      rewrite <- ins_perm. rewrite (R2 _ _ Hn). apply Permutation_cons_append.
+    + rewrite nth_error_update_nth_neq in Hn1 by assumption.
+      cbn [subs_of flat_map fst snd]. apply Nat.eqb_neq in Hne. rewrite Hne. cbn [app].
+      rewrite app_nil_r. apply R2. exact Hn1.
+Qed.
+
+Definition good_emitter (E : emitter) : Prop :=
+  forall w h v w' c v' fr, world_wf w -> E w h v = Ok (w', c, v', fr) ->
+    good w w' (flatten fr) (all_frames fr) (events fr).
+
+Lemma good_emit0 : good_emitter (emit 0).
+Proof. intros w h v w' c v' fr _ H; discriminate. Qed.
+
+Lemma run_acts_good E (GE : good_emitter E) : forall acts w w' kids, world_wf w ->
+  run_acts E w acts = Ok (w', kids) ->
+  good w w' (flat_map flatten_child kids) (flat_map all_frames_child kids)
+       (flat_map events_child kids).
+Proof.
+  induction acts as [|a acts IH]; intros w w' kids Hw H; cbn [run_acts] in H.
+  - inversion H; subst. cbn. apply good_refl. exact Hw.
+  - match type of H with match ?S with _ => _ end = _ => destruct S as [[w1 ch]|e] eqn:HS; [|discriminate] end.
+    destruct (run_acts E w1 acts) as [[w2 chs]|e] eqn:HR; [|discriminate].
+    inversion H; subst w' kids; clear H.
+    assert (G1 : good w w1 (flatten_child ch) (all_frames_child ch) (events_child ch)).
+    { destruct a as [h prio rs|h v|lgs].
+      - pose proof (good_subscribe _ _ _ _ _ _ Hw HS) as G.
+        unfold subscribe in HS.
+        destruct (nth_error (hs w) h); [|discriminate].
+        destruct (subscribe_h _ _) as [?|]; [|discriminate].
+        inversion HS; subst. exact G.
+      - destruct (E w h v) as [[[[w1' c] v1] fr]|e] eqn:HE; [|discriminate].
+        inversion HS; subst w1 ch; clear HS. cbn. eapply GE; eassumption.
+      - inversion HS; subst w1 ch; clear HS. cbn. apply good_init_loggers. exact Hw. }
+    cbn [flat_map]. eapply good_trans; [exact G1|]. apply IH; [|exact HR]. apply G1.
+Qed.
+
+Lemma canceller_cancel cl : canceller KCancel cl = false -> r_cancel (call_r cl) = false.
+Proof. unfold canceller. cbn. auto. Qed.
+
+(* the listener loop *)
+Lemma deliver_spec E (GE : good_emitter E) k h g : forall todo i w v w' c v' cls,
+  world_wf w -> deliver E k h g w todo i v = Ok (w', c, v', cls) ->
+  good w w' (flat_map (flatten_call h) cls) (flat_map all_frames_call cls)
+       (flat_map events_call cls) /\
+  threaded k v cls v' /\
+  (c = false -> length cls = todo /\ Forall (fun cl => canceller k cl = false) cls) /\
+  (c = true -> k = KCancel /\ (length cls <= todo)%nat /\
+     exists pre lst, cls = pre ++ [lst] /\ r_cancel (call_r lst) = true /\
+       Forall (fun cl => canceller k cl = false) pre) /\
+  (* the listeners called are the ones the array held, from index i on, when the loop got here *)
+  (forall hd a, nth_error (hs w) h = Some hd -> arr hd g = Some a ->
+     (i + todo <= length a)%nat ->
+     map call_l cls = firstn (length cls) (skipn i (firstn (i + todo) a))).
+Proof.
+  induction todo as [|todo IH]; intros i w v w' c v' cls Hw H; cbn [deliver] in H.
+  - inversion H; subst. cbn.
+    split; [apply good_refl; exact Hw|]. split; [reflexivity|].
+    split; [intros _; split; [reflexivity|constructor]|]. split; [discriminate|].
+    intros; reflexivity.
+  - destruct (nth_error (hs w) h) as [hd|] eqn:Hn; [|discriminate].
+    destruct (arr hd g) as [a|] eqn:Ha; [|discriminate].
+    destruct (nth_error a i) as [l|] eqn:Hl; [|discriminate].
+    destruct (pop (reacts (add_trace w [ICall (l_id l) h v])) (l_id l)) as [r rs'] eqn:HP.
+    match type of H with context [run_acts E ?W ?N] => set (w2 := W) in * end.
+    destruct (run_acts E w2 (r_acts r)) as [[w3 kids]|e] eqn:HN; [|discriminate].
+    assert (G12 : good w w2 [ICall (l_id l) h v] [] []).
+    { subst w2. apply good_silent; auto. }
+    assert (Hw2 : world_wf w2) by apply G12.
+    pose proof (run_acts_good E GE _ _ _ _ Hw2 HN) as G23.
+    pose proof (good_trans _ _ _ _ _ _ _ _ _ G12 G23) as G13. cbn [app] in G13.
+    assert (Hw3 : world_wf w3) by apply G23.
+    (* where the loop's array is after the listener ran: the same contents, possibly longer *)
+    assert (Hev : evolves w w3) by apply G13.
+    destruct (Hev h hd Hn) as (hd3 & Hn3 & Hk3 & Harr3).
+    destruct (Harr3 g a Ha) as (tl & Ha3).
+    destruct (kind_eqb k KCancel && r_cancel r) eqn:HC.
+    + inversion H; subst w' c v' cls; clear H.
+      apply andb_prop in HC. destruct HC as [HK HR].
+      assert (k = KCancel) by (destruct k; cbn in HK; congruence). subst k.
+      cbn [flat_map flatten_call all_frames_call events_call].
+      rewrite !app_nil_r.
+      split; [exact G13|].
+      split; [cbn; auto|].
+      split; [discriminate|].
       split.
-      * cbn [flat_map flatten_record]. rewrite Ht, Htr, <- app_assoc. reflexivity.
-      * constructor; [|exact Hf]. cbn. split; [|exact Hfr]. exists (next_id w). exact Hw.
-    + inversion HS; subst; clear HS. cbn [trace] in Ht. auto.
+      { intros _. split; [reflexivity|]. split; [cbn; lia|].
+        exists [], (Call l v r kids). cbn. repeat split; auto. }
+      intros hd0 a0 Hn0 Ha0 Hle. inversion Hn0; subst hd0.
+      rewrite Ha in Ha0. inversion Ha0; subst a0.
+      cbn [length map call_l]. rewrite (skipn_firstn_nth _ _ _ _ Hl) by lia. reflexivity.
+    + destruct (deliver E k h g w3 todo (S i) _) as [[[[w4 c4] v4] cls4]|e] eqn:HD; [|discriminate].
+      inversion H; subst w' c v' cls; clear H.
+      destruct (IH _ _ _ _ _ _ _ Hw3 HD) as (G34 & Hth & Hnc & Hc & Hdel).
+      cbn [flat_map flatten_call all_frames_call events_call].
+      split.
+      { pose proof (good_trans _ _ _ _ _ _ _ _ _ G13 G34) as G. cbn [app] in G. exact G. }
+      split; [cbn [threaded call_v]; split; [reflexivity|exact Hth]|].
+      split.
+      { intros Hcf. destruct (Hnc Hcf) as [E1 E2]. split; [cbn; f_equal; exact E1|].
+        constructor; [exact HC|exact E2]. }
+      split.
+      { intros Hct. destruct (Hc Hct) as (Hk & Hle & pre & lst & E1 & E3 & E4).
+        split; [exact Hk|]. split; [cbn; lia|].
+        exists (Call l v r kids :: pre), lst. subst cls4. cbn.
+        split; [reflexivity|]. split; [exact E3|]. constructor; [exact HC|exact E4]. }
+      intros hd0 a0 Hn0 Ha0 Hle. inversion Hn0; subst hd0.
+      rewrite Ha in Ha0. inversion Ha0; subst a0.
+      assert (Hle3 : (S i + todo <= length (a ++ tl))%nat) by (rewrite app_length; lia).
+      specialize (Hdel hd3 (a ++ tl) Hn3 Ha3 Hle3).
+      replace (S i + todo)%nat with (i + S todo)%nat in Hdel by lia.
+      rewrite (firstn_app_le a tl _ Hle) in Hdel.
+      cbn [length map call_l]. rewrite (skipn_firstn_nth _ _ _ _ Hl) by lia.
+      cbn [firstn]. f_equal. exact Hdel.
+Qed.
+
+Lemma good_emit_step E : good_emitter E ->
+  good_emitter (fun w h v =>
+      match nth_error (hs w) h with
+      | None => Err BadHandler
+      | Some hd =>
+          match deliver E (h_kind hd) h (h_gen hd) (add_trace w [IEmit h v])
+                        (length (h_ls hd)) O v with
+          | Err e => Err e
+          | Ok (w1, c, v', cls) =>
+              Ok (add_trace w1 (log_items (loggers w1) h v' c ++ [IRet h c v']), c, v',
+                  Frame h (h_kind hd) (h_ls hd) v cls v' c (loggers w1))
+          end
+      end).
+Proof.
+  intros GE w h v w' c v' fr Hw H.
+  destruct (nth_error (hs w) h) as [hd|] eqn:Hnth; [|discriminate].
+  destruct (deliver E (h_kind hd) h (h_gen hd) _ (length (h_ls hd)) 0 v)
+    as [[[[w1 c1] v1] cls]|e] eqn:HD; [|discriminate].
+  inversion H; subst w' c v' fr; clear H.
+  pose proof (good_start w h hd v Hw Hnth) as G0.
+  assert (Hw0 : world_wf (add_trace w [IEmit h v])) by apply G0.
+  destruct (deliver_spec E GE _ _ _ _ _ _ _ _ _ _ _ Hw0 HD) as (G1 & Hth & Hnc & Hc & Hdel).
+  assert (Hw1 : world_wf w1) by apply G1.
+  pose proof (good_done w1 h v1 c1 Hw1) as G2.
+  pose proof (good_trans _ _ _ _ _ _ _ _ _ (good_trans _ _ _ _ _ _ _ _ _ G0 G1) G2) as G.
+  cbn [app] in G. rewrite !app_nil_r in G.
+  cbn [flatten all_frames events].
+  assert (Hfr : frame_ok (Frame h (h_kind hd) (h_ls hd) v cls v1 c1 (loggers w1))).
+  { assert (Hwf : handler_wf (next_id w) hd).
+    { unfold world_wf in Hw. rewrite Forall_forall in Hw. apply Hw. eapply nth_error_In; exact Hnth. }
+    cbn [frame_ok]. split; [apply Hwf|]. split; [|split; [exact Hth|]].
+    - cbn [cancel_ok]. split.
+      + intros Hcf. destruct (Hnc Hcf) as [E1 E2]. split; [exact E1|].
+        intros HK. rewrite HK in E2. eapply Forall_impl; [|exact E2]. apply canceller_cancel.
+      + intros Hct. destruct (Hc Hct) as (HK & Hle & pre & lst & E1 & E3 & E4).
+        split; [exact HK|]. split; [exact Hle|]. exists pre, lst.
+        split; [exact E1|]. split; [exact E3|].
+        rewrite HK in E4. eapply Forall_impl; [|exact E4]. apply canceller_cancel.
+    - specialize (Hdel hd (h_ls hd) Hnth (arr_current hd) (Nat.le_refl _)).
+      cbn [Nat.add skipn] in Hdel. rewrite firstn_all in Hdel.
+      cbn [delivery_ok]. split.
+      + intros Hcf. destruct (Hnc Hcf) as [E1 _]. rewrite E1, firstn_all in Hdel. exact Hdel.
+      + intros _. exists (skipn (length cls) (h_ls hd)). rewrite Hdel. symmetry. apply firstn_skipn. }
+  change (Frame h (h_kind hd) (h_ls hd) v cls v1 c1 (loggers w1) :: flat_map all_frames_call cls)
+    with ([Frame h (h_kind hd) (h_ls hd) v cls v1 c1 (loggers w1)] ++ flat_map all_frames_call cls).
+  apply good_add_frames; [constructor; [exact Hfr|constructor]|].
+  exact G.
+Qed.
+
+Theorem emit_good : forall fuel, good_emitter (emit fuel).
+Proof.
+  induction fuel as [|f IH]; [exact good_emit0|].
+  cbn [emit]. apply good_emit_step. exact IH.
+Qed.
+
+Theorem run_good fuel ops w w' kids : world_wf w -> run fuel w ops = Ok (w', kids) ->
+  good w w' (flat_map flatten_child kids) (flat_map all_frames_child kids)
+       (flat_map events_child kids).
+Proof. intros Hw H. eapply run_acts_good; [apply emit_good|exact Hw|exact H]. Qed.
+
+Lemma rel_init kinds : rel (init kinds) [] [].
+Proof.
+  split; [reflexivity|]. intros h hd Hn. cbn [init hs] in Hn.
+  apply nth_error_In in Hn. apply in_map_iff in Hn. destruct Hn as (k & <- & _). constructor.
 Qed.
 
 (* ------------------------------------------------------------------ *)
 (* Logs: every logger sees the completion order of the emission forest  *)
 (* ------------------------------------------------------------------ *)
 
-Section FrameInd.
-  Variables (P : frame -> Prop) (Q : call -> Prop).
-  Hypothesis HF : forall h vin calls vout c, Forall Q calls -> P (Frame h vin calls vout c).
-  Hypothesis HC : forall l vs r subs, Forall P subs -> Q (Call l vs r subs).
-  Fixpoint frame_ind2 (fr : frame) : P fr :=
+Section ForestInd.
+  Variables (P : frame -> Prop) (Q : call -> Prop) (R : child -> Prop).
+  Hypothesis HF : forall h k ls0 vin calls vout c lgs,
+    Forall Q calls -> P (Frame h k ls0 vin calls vout c lgs).
+  Hypothesis HC : forall l vs r kids, Forall R kids -> Q (Call l vs r kids).
+  Hypothesis HK1 : forall fr, P fr -> R (CFrame fr).
+  Hypothesis HK2 : forall h l, R (CSub h l).
+  Hypothesis HK3 : forall lgs, R (CInit lgs).
+  Fixpoint frame_ind3 (fr : frame) : P fr :=
     match fr with
-    | Frame h vin calls vout c =>
-        HF h vin calls vout c
+    | Frame h k ls0 vin calls vout c lgs =>
+        HF h k ls0 vin calls vout c lgs
            ((fix go (cs : list call) : Forall Q cs :=
-               match cs with [] => Forall_nil _ | x :: r => Forall_cons _ (call_ind2 x) (go r) end) calls)
+               match cs with [] => Forall_nil _ | x :: r => Forall_cons _ (call_ind3 x) (go r) end) calls)
     end
-  with call_ind2 (cl : call) : Q cl :=
+  with call_ind3 (cl : call) : Q cl :=
     match cl with
-    | Call l vs r subs =>
-        HC l vs r subs
-           ((fix go (fs : list frame) : Forall P fs :=
-               match fs with [] => Forall_nil _ | x :: r => Forall_cons _ (frame_ind2 x) (go r) end) subs)
+    | Call l vs r kids =>
+        HC l vs r kids
+           ((fix go (ks : list child) : Forall R ks :=
+               match ks with [] => Forall_nil _ | x :: r => Forall_cons _ (child_ind3 x) (go r) end) kids)
+    end
+  with child_ind3 (ch : child) : R ch :=
+    match ch with
+    | CFrame fr => HK1 fr (frame_ind3 fr)
+    | CSub h l => HK2 h l
+    | CInit lgs => HK3 lgs
     end.
-End FrameInd.
+End ForestInd.
+
+(* what logger lg receives from one event of the history: the completed emission once per
+   registration of lg at that moment, nothing otherwise *)
+Definition ev_log (lg : Z) (e : ev) : list (nat * Z * bool) :=
+  match e with
+  | EDone h v c lgs => repeat (h, v, c) (count_occ Z.eq_dec lgs lg)
+  | _ => []
+  end.
 
 Lemma log_of_app lg a b : log_of lg (a ++ b) = log_of lg a ++ log_of lg b.
 Proof. unfold log_of. apply flat_map_app. Qed.
 
-Lemma log_of_log_items lg lgs h v c : NoDup lgs -> In lg lgs ->
-  log_of lg (log_items lgs h v c) = [(h, v, c)].
+Lemma log_of_log_items lg lgs h v c :
+  log_of lg (log_items lgs h v c) = repeat (h, v, c) (count_occ Z.eq_dec lgs lg).
 Proof.
-  induction lgs as [|x lgs IH]; intros Hnd Hin; [destruct Hin|].
-  inversion Hnd as [|? ? Hni Hnd']; subst. cbn.
-  destruct Hin as [->|Hin].
-  - rewrite Z.eqb_refl. cbn. f_equal.
-    assert (Hnone : forall l, ~ In lg l -> log_of lg (log_items l h v c) = []).
-    { induction l as [|y l IHl]; cbn; intros Hn; [reflexivity|].
-      destruct (y =? lg) eqn:E; [apply Z.eqb_eq in E; subst; exfalso; apply Hn; left; reflexivity|].
-      cbn. apply IHl. intros Hi; apply Hn; right; exact Hi. }
-    apply Hnone. exact Hni.
-  - destruct (x =? lg) eqn:E; [apply Z.eqb_eq in E; subst; contradiction|].
-    cbn. apply IH; assumption.
-Qed.
-
-Lemma log_of_log_items_absent lg lgs h v c : ~ In lg lgs -> log_of lg (log_items lgs h v c) = [].
-Proof.
-  induction lgs as [|y l IHl]; cbn; intros Hn; [reflexivity|].
-  destruct (y =? lg) eqn:E; [apply Z.eqb_eq in E; subst; exfalso; apply Hn; left; reflexivity|].
-  cbn. apply IHl. intros Hi; apply Hn; right; exact Hi.
+  induction lgs as [|x lgs IH]; [reflexivity|].
+  cbn [log_items map log_of flat_map count_occ]. fold (log_items lgs h v c).
+  fold (log_of lg (log_items lgs h v c)). rewrite IH.
+  destruct (Z.eq_dec x lg) as [->|Hne].
+  - rewrite Z.eqb_refl. reflexivity.
+  - apply Z.eqb_neq in Hne. rewrite Hne. reflexivity.
 Qed.
 
 Lemma log_of_flat_map {A} lg (f : A -> list item) l :
@@ -382,112 +697,157 @@ Proof.
   rewrite log_of_app, IH. reflexivity.
 Qed.
 
+Lemma flat_map_flat_map {A B C} (f : A -> list B) (g : B -> list C) l :
+  flat_map g (flat_map f l) = flat_map (fun x => flat_map g (f x)) l.
+Proof.
+  induction l as [|x l IH]; cbn [flat_map]; [reflexivity|].
+  rewrite flat_map_app, IH. reflexivity.
+Qed.
+
 Lemma flat_map_ext_Forall {A B} (f g : A -> list B) l :
   Forall (fun x => f x = g x) l -> flat_map f l = flat_map g l.
 Proof. induction 1 as [|x l Hx _ IH]; cbn; [reflexivity|]. rewrite Hx, IH. reflexivity. Qed.
 
-Lemma log_of_cons_call lg lid h v tl : log_of lg (ICall lid h v :: tl) = log_of lg tl.
-Proof. reflexivity. Qed.
-
-Theorem log_is_postorder lg lgs : NoDup lgs -> In lg lgs ->
-  forall fr, log_of lg (flatten lgs fr) = postorder fr.
+Theorem log_is_completion_order lg :
+  forall fr, log_of lg (flatten fr) = flat_map (ev_log lg) (events fr).
 Proof.
-  intros Hnd Hin.
-  apply (frame_ind2 (fun fr => log_of lg (flatten lgs fr) = postorder fr)
-                    (fun cl => forall h, log_of lg (flatten_call lgs h cl) = postorder_call cl)).
-  - intros h vin calls vout c Hcs. cbn [flatten postorder].
-    rewrite !log_of_app, log_of_log_items by assumption.
-    rewrite log_of_flat_map. f_equal.
+  apply (frame_ind3
+           (fun fr => log_of lg (flatten fr) = flat_map (ev_log lg) (events fr))
+           (fun cl => forall h, log_of lg (flatten_call h cl) = flat_map (ev_log lg) (events_call cl))
+           (fun ch => log_of lg (flatten_child ch) = flat_map (ev_log lg) (events_child ch))).
+  - intros h k ls0 vin calls vout c lgs Hcs. cbn [flatten events].
+    change (IEmit h vin :: ?x) with ([IEmit h vin] ++ x).
+    rewrite !log_of_app, log_of_log_items.
+    cbn [flat_map ev_log app]. rewrite flat_map_app. cbn [flat_map ev_log].
+    rewrite app_nil_r. cbn [log_of flat_map app]. f_equal; [|symmetry; apply app_nil_r].
+    rewrite log_of_flat_map, flat_map_flat_map.
     apply flat_map_ext_Forall. eapply Forall_impl; [|exact Hcs]. intros cl Hcl. apply Hcl.
-  - intros l vs r subs Hs h. cbn [flatten_call postorder_call].
-    rewrite log_of_cons_call, log_of_flat_map.
+  - intros l vs r kids Hs h. cbn [flatten_call events_call].
+    change (ICall (l_id l) h vs :: ?x) with ([ICall (l_id l) h vs] ++ x).
+    rewrite log_of_app. cbn [log_of flat_map app].
+    fold (log_of lg (flat_map flatten_child kids)).
+    rewrite log_of_flat_map, flat_map_flat_map.
     apply flat_map_ext_Forall. exact Hs.
+  - intros fr H. exact H.
+  - reflexivity.
+  - reflexivity.
 Qed.
 
-Lemma flat_map_nil_Forall {A B} (f : A -> list B) l :
-  Forall (fun x => f x = []) l -> flat_map f l = [].
-Proof. induction 1 as [|x l Hx _ IH]; cbn; [reflexivity|]. rewrite Hx, IH. reflexivity. Qed.
-
-Theorem unregistered_logger_sees_nothing lg lgs : ~ In lg lgs ->
-  forall fr, log_of lg (flatten lgs fr) = [].
+Corollary log_of_kids lg kids :
+  log_of lg (flat_map flatten_child kids) = flat_map (ev_log lg) (flat_map events_child kids).
 Proof.
-  intros Hni.
-  apply (frame_ind2 (fun fr => log_of lg (flatten lgs fr) = [])
-                    (fun cl => forall h, log_of lg (flatten_call lgs h cl) = [])).
-  - intros h vin calls vout c Hcs. cbn [flatten].
-    rewrite !log_of_app, log_of_log_items_absent by assumption.
-    rewrite log_of_flat_map, flat_map_nil_Forall; [reflexivity|].
-    eapply Forall_impl; [|exact Hcs]. intros cl Hcl. apply Hcl.
-  - intros l vs r subs Hs h. cbn [flatten_call].
-    rewrite log_of_cons_call, log_of_flat_map. apply flat_map_nil_Forall. exact Hs.
+  rewrite log_of_flat_map, flat_map_flat_map. apply flat_map_ext_Forall.
+  apply Forall_forall. intros ch _. destruct ch; [apply log_is_completion_order| |]; reflexivity.
 Qed.
 
-(* fuel: an emission consumes at most one reaction per listener invocation; nothing is
-   proved from it here except that running out of fuel is reported as [None], never as a
-   normal-looking result (all theorems above are conditional on [Some]). *)
+(* spelled out for the usual case of distinct loggers *)
+Lemma ev_log_registered lg h v c lgs : NoDup lgs -> In lg lgs -> ev_log lg (EDone h v c lgs) = [(h, v, c)].
+Proof.
+  intros Hnd Hin. cbn. rewrite (proj1 (NoDup_count_occ' Z.eq_dec lgs) Hnd lg Hin). reflexivity.
+Qed.
+Lemma ev_log_unregistered lg h v c lgs : ~ In lg lgs -> ev_log lg (EDone h v c lgs) = [].
+Proof.
+  intros Hni. cbn. rewrite (proj1 (count_occ_not_In Z.eq_dec lgs lg) Hni). reflexivity.
+Qed.
 
 (* ------------------------------------------------------------------ *)
 (* Property-level statements (C18)                                      *)
 (* ------------------------------------------------------------------ *)
 
+(* For every history (top-level operations and listener scripts of any shape), every fuel,
+   provided the run ends normally (not out of fuel / bad handler index / beyond the growth
+   table): *)
 Definition C18_statement : Prop :=
-  forall fuel kinds ops w frs,
-    run fuel (init kinds) ops = Some (w, frs) ->
-    (* (1) the observable trace is exactly the flattening of the emission forest: listeners
-           of a frame run first (with their nested emissions inside), then every registered
-           logger is called exactly once, then Emit returns *)
-    trace w = flat_map flatten_record frs /\
-    forall hs0 lgs top, In (hs0, lgs, top) frs ->
-      (* (2) every logger registered during the emission logs the completion order *)
-      (NoDup lgs -> forall lg, In lg lgs -> log_of lg (flatten lgs top) = postorder top) /\
-      forall h vin calls vout c, In (Frame h vin calls vout c) (all_frames top) ->
-        exists hd, nth_error hs0 h = Some hd /\
-          (* (3) subscription table: unique listeners; simple handlers keep subscription
-                 order, the others ascending priority *)
-          NoDup (map l_id (h_ls hd)) /\
-          (h_kind hd = KSimple -> ids_increasing (h_ls hd)) /\
-          (h_kind hd <> KSimple -> prio_sorted (h_ls hd)) /\
-          (* (4) delivery: everyone exactly once in that order unless cancelled *)
-          (c = false -> map call_l calls = h_ls hd) /\
-          (* (5) cancellation: only cancelable handlers, reported iff some listener cancels,
-                 listeners called = prefix up to the first canceller *)
-          (c = true -> h_kind hd = KCancel /\
-             exists pre lst post, calls = pre ++ [lst] /\ h_ls hd = map call_l calls ++ post /\
-               r_cancel (call_r lst) = true /\
-               Forall (fun cl => r_cancel (call_r cl) = false) pre) /\
-          (c = false -> h_kind hd = KCancel -> Forall (fun cl => r_cancel (call_r cl) = false) calls) /\
-          (* (6) mutable handlers thread the value; all others pass the emitted value *)
-          threaded (h_kind hd) vin calls vout.
-
-Lemma canceller_cancel cl : canceller KCancel cl = false -> r_cancel (call_r cl) = false.
-Proof. unfold canceller. cbn. auto. Qed.
+  forall fuel kinds ops w kids,
+    run fuel (init kinds) ops = Ok (w, kids) ->
+    (* (1) the observable trace is exactly the flattening of the forest of emissions,
+           subscriptions and logger registrations: an emission's listeners run first (with
+           whatever their scripts do nested inside), then the loggers, then Emit returns *)
+    trace w = flat_map flatten_child kids /\
+    (* (2) every logger's log is the completion order of the emissions, each one once per
+           registration of the logger at the moment the emission completed *)
+    (forall lg, log_of lg (trace w) = flat_map (ev_log lg) (flat_map events_child kids)) /\
+    (* (3) the listeners an emission starts from are (a permutation of) everything subscribed
+           to its handler before, at top level or from inside listeners; the loggers it is
+           passed to are those of the latest InitLoggers before its completion *)
+    consistent [] [] (flat_map events_child kids) /\
+    (* (4) per emission - whatever its listeners do meanwhile, Subscribe to its own handler
+           included: table order, cancellation, value threading, and delivery exactly once in
+           order to the listeners subscribed when it was entered *)
+    Forall frame_ok (flat_map all_frames_child kids).
 
 Theorem C18_holds : C18_statement.
 Proof.
-  intros fuel kinds ops w frs HR.
-  destruct (run_spec fuel ops _ _ _ (init_wf kinds) HR) as (_ & Ht & Hf).
+  intros fuel kinds ops w kids HR.
+  destruct (run_good fuel ops _ _ _ (init_wf kinds) HR) as (_ & _ & Ht & Hf & Hc).
   split; [exact Ht|].
-  intros hs0 lgs top Hin. split.
-  - intros Hnd lg Hlg. apply log_is_postorder; assumption.
-  - intros h vin calls vout c Hfr.
-    rewrite Forall_forall in Hf. specialize (Hf _ Hin). cbn in Hf.
-    destruct Hf as ((b & Hwf) & Hloc).
-    rewrite Forall_forall in Hloc. specialize (Hloc _ Hfr). cbn in Hloc.
-    destruct Hloc as (hd & Hnth & Hnc & Hc & Hth).
-    exists hd. split; [exact Hnth|].
-    rewrite Forall_forall in Hwf. pose proof (Hwf hd (nth_error_In _ _ Hnth)) as (Hb & Hnd & Hk).
-    split; [exact Hnd|].
-    split; [intros K; rewrite K in Hk; exact Hk|].
-    split; [intros K; destruct (h_kind hd); try exact Hk; congruence|].
-    split; [intros Hcf; apply Hnc; exact Hcf|].
-    split.
-    { intros Hct. destruct (Hc Hct) as (HK & pre & lst & post & E1 & E2 & E3 & E4).
-      split; [exact HK|]. exists pre, lst, post. repeat split; auto.
-      rewrite HK in E4. eapply Forall_impl; [|exact E4]. apply canceller_cancel. }
-    split; [|exact Hth].
-    intros Hcf HK. destruct (Hnc Hcf) as [_ Hall]. rewrite HK in Hall.
-    eapply Forall_impl; [|exact Hall]. apply canceller_cancel.
+  split; [intros lg; rewrite Ht; cbn [init trace app]; apply log_of_kids|].
+  split; [apply (Hc [] [] (rel_init kinds))|exact Hf].
 Qed.
+
+(* The delivery clause at full strength: EVERY emission of every history, whatever the listener
+   scripts do (Subscribe to the handler being emitted included), reaches each listener
+   subscribed when it was entered exactly once, in the handler's order - all of them without a
+   cancellation, the prefix up to the first canceller with one.  A listener subscribed while
+   the emission is running is reached from the next emission on (clause (3): that emission
+   starts from everything subscribed before it). *)
+Definition C18_delivery_full : Prop :=
+  forall fuel kinds ops w kids,
+    run fuel (init kinds) ops = Ok (w, kids) ->
+    Forall delivery_ok (flat_map all_frames_child kids).
+
+Theorem C18_delivery_full_holds : C18_delivery_full.
+Proof.
+  intros fuel kinds ops w kids HR. destruct (C18_holds _ _ _ _ _ HR) as (_ & _ & _ & Hf).
+  eapply Forall_impl; [|exact Hf]. intros [h k ls0 vin calls vout c lgs] H. apply H.
+Qed.
+
+Lemma NoDup_app_left {A} (a b : list A) : NoDup (a ++ b) -> NoDup a.
+Proof.
+  induction a as [|x a IH]; intros H; [constructor|].
+  cbn in H. inversion H as [|? ? Hni Hnd]; subst. constructor; [|apply IH; exact Hnd].
+  intros Hin. apply Hni. apply in_or_app. left. exact Hin.
+Qed.
+
+(* "exactly once", spelled out: no listener is called twice by one emission *)
+Corollary delivery_no_duplicates : forall fuel kinds ops w kids,
+  run fuel (init kinds) ops = Ok (w, kids) ->
+  Forall (fun fr => match fr with
+                    | Frame _ _ _ _ calls _ _ _ => NoDup (map (fun cl => l_id (call_l cl)) calls)
+                    end) (flat_map all_frames_child kids).
+Proof.
+  intros fuel kinds ops w kids HR. destruct (C18_holds _ _ _ _ _ HR) as (_ & _ & _ & Hf).
+  eapply Forall_impl; [|exact Hf]. intros [h k ls0 vin calls vout c lgs] (Ht & _ & _ & Hd).
+  destruct Ht as [Hnd _]. cbn [delivery_ok] in Hd. rewrite <- map_map.
+  destruct c.
+  - destruct (proj2 Hd eq_refl) as (post & E). rewrite E, map_app in Hnd.
+    eapply NoDup_app_left. exact Hnd.
+  - rewrite (proj1 Hd eq_refl). exact Hnd.
+Qed.
+
+(* The history that disturbed the unrepaired code (corpus case
+   reentrant_subscribe_disturbs_running_emit; it called listeners 0, 0, 1): three listeners on
+   a priority handler; the first one, when called, subscribes a listener of lower priority to
+   the handler it is being called by.  Now the running emission calls 0, 1, 2 and the next
+   emission calls the new listener first. *)
+Definition disturb_kinds : list hkind := [KPriority].
+Definition disturb_ops : list op :=
+  [ OSub 0 0 [mkR (XAdd 0) false [OSub 0 (-1) []]];
+    OSub 0 1 [];
+    OSub 0 2 [];
+    OEmit 0 7 ].
+
+Example reentrant_subscribe_delivered :
+  exists w kids,
+    run 2 (init disturb_kinds) (disturb_ops ++ [OEmit 0 8]) = Ok (w, kids) /\
+    map (fun fr => match fr with Frame _ _ ls0 _ calls _ c _ =>
+                     (map l_id ls0, map (fun cl => l_id (call_l cl)) calls, c) end)
+        (flat_map all_frames_child kids)
+    = [([0; 1; 2], [0; 1; 2], false); ([3; 0; 1; 2], [3; 0; 1; 2], false)] /\
+    trace w = [ISub 0 0 0; ISub 1 0 1; ISub 2 0 2;
+               IEmit 0 7; ICall 0 0 7; ISub 3 0 (-1); ICall 1 0 7; ICall 2 0 7; IRet 0 false 7;
+               IEmit 0 8; ICall 3 0 8; ICall 0 0 8; ICall 1 0 8; ICall 2 0 8; IRet 0 false 8].
+Proof. eexists. eexists. vm_compute. repeat split. Qed.
 
 (* mutable threading, spelled out: the logged value is the fold of the transformers *)
 Lemma threaded_mutable_fold vin calls vout : threaded KMutable vin calls vout ->
@@ -516,17 +876,193 @@ Proof.
     split; [exact E1|]. constructor; assumption.
 Qed.
 
-(* non-vacuity: a run with nested emissions, a mutable chain and a cancellation completes *)
+(* ------------------------------------------------------------------ *)
+(* Non-vacuity                                                          *)
+(* ------------------------------------------------------------------ *)
+
+(* a re-entrant history: a mutable listener emits on its own handler again; another one emits
+   on a cancelable handler and then subscribes to the handler it is being called by (the
+   append goes to a fresh array: the running loop keeps the one it started with); a cancelable listener
+   re-registers the loggers; a simple listener subscribes to its own handler *)
+Definition demo_kinds := [KSimple; KPriority; KMutable; KCancel].
 Definition demo_ops : list op :=
   [ OInit [100; 101];
-    OSub 2 5 [mkR (XMul 3) false []];
-    OSub 2 (-1) [mkR (XAdd 4) false [(3%nat, 7)]];
-    OSub 3 0 [mkR (XAdd 0) false []; mkR (XAdd 0) true [(0%nat, 1)]];
+    OSub 2 5 [mkR (XMul 3) false [OEmit 2 1]];
+    OSub 2 (-1) [mkR (XAdd 4) false [OEmit 3 7; OSub 2 0 []]];
+    OSub 3 0 [mkR (XAdd 0) false [OInit [101]]; mkR (XAdd 0) true [OEmit 0 1]];
     OSub 3 0 [mkR (XAdd 0) true []];
-    OSub 0 0 [];
-    OEmit 2 10; OEmit 3 9 ].
-Definition demo_kinds := [KSimple; KPriority; KMutable; KCancel].
+    OSub 0 0 [mkR (XAdd 0) false [OSub 0 0 []]];
+    OEmit 2 10; OEmit 3 9; OEmit 0 0 ].
 
-Example demo_runs : exists w frs, run 10 (init demo_kinds) demo_ops = Some (w, frs) /\
-  length frs = 2%nat /\ length (trace w) = 18%nat.
+Example demo_runs : exists w kids, run 10 (init demo_kinds) demo_ops = Ok (w, kids) /\
+  length (trace w) = 38%nat /\
+  length (flat_map all_frames_child kids) = 6%nat /\
+  (* listeners subscribed at entry / listeners called / cancelled, per emission in order of entry *)
+  map (fun fr => match fr with Frame h _ ls0 _ calls _ c _ =>
+                   (h, map l_id ls0, map (fun cl => l_id (call_l cl)) calls, c) end)
+      (flat_map all_frames_child kids)
+  = [(2%nat, [1; 0], [1; 0], false); (3%nat, [2; 3], [2; 3], true);
+     (2%nat, [1; 5; 0], [1; 5; 0], false); (3%nat, [2; 3], [2], true);
+     (0%nat, [4], [4], false); (0%nat, [4; 6], [4; 6], false)] /\
+  log_of 101 (trace w) = [(3%nat, 7, true); (2%nat, 1, false); (2%nat, 42, false);
+                          (0%nat, 1, false); (3%nat, 9, true); (0%nat, 0, false)] /\
+  log_of 100 (trace w) = [].
 Proof. eexists. eexists. vm_compute. repeat split. Qed.
+
+(* running out of fuel is a distinct outcome, never a normal-looking result *)
+Example demo_out_of_fuel : run 1 (init demo_kinds) demo_ops = Err OutOfFuel.
+Proof. vm_compute. reflexivity. Qed.
+
+(* ------------------------------------------------------------------ *)
+(* The listener loop never reads outside its backing array              *)
+(* ------------------------------------------------------------------ *)
+
+Definition never_stuck (E : emitter) : Prop :=
+  forall w h v, world_wf w -> E w h v <> Err Stuck.
+
+Lemma run_acts_never_stuck E (GE : good_emitter E) (NS : never_stuck E) : forall acts w,
+  world_wf w -> run_acts E w acts <> Err Stuck.
+Proof.
+  induction acts as [|a acts IH]; intros w Hw; cbn [run_acts]; [discriminate|].
+  destruct a as [h prio rs|h v|lgs].
+  - destruct (subscribe w h prio rs) as [[w1 ch]|e] eqn:HS.
+    + assert (Hw1 : world_wf w1) by (eapply good_subscribe; eassumption).
+      specialize (IH w1 Hw1). destruct (run_acts E w1 acts) as [[w2 chs]|e]; [discriminate|].
+      intros H; inversion H; subst; apply IH; reflexivity.
+    + unfold subscribe in HS. destruct (nth_error (hs w) h); [|inversion HS; discriminate].
+      destruct (subscribe_h _ _) as [?|]; inversion HS; discriminate.
+  - specialize (NS w h v Hw). destruct (E w h v) as [[[[w1 c] v1] fr]|e] eqn:HE.
+    + assert (Hw1 : world_wf w1) by (eapply GE; eassumption).
+      specialize (IH w1 Hw1). destruct (run_acts E w1 acts) as [[w2 chs]|e]; [discriminate|].
+      intros H; inversion H; subst; apply IH; reflexivity.
+    + intros H; inversion H; subst; apply NS; reflexivity.
+  - assert (Hw1 : world_wf (init_loggers w lgs)) by exact Hw.
+    specialize (IH _ Hw1). destruct (run_acts E (init_loggers w lgs) acts) as [[w2 chs]|e]; [discriminate|].
+    intros H; inversion H; subst; apply IH; reflexivity.
+Qed.
+
+Lemma deliver_never_stuck E (GE : good_emitter E) (NS : never_stuck E) k h g :
+  forall todo i w v hd a, world_wf w -> nth_error (hs w) h = Some hd -> arr hd g = Some a ->
+    (i + todo <= length a)%nat -> deliver E k h g w todo i v <> Err Stuck.
+Proof.
+  induction todo as [|todo IH]; intros i w v hd a Hw Hn Ha Hle; cbn [deliver]; [discriminate|].
+  rewrite Hn, Ha.
+  destruct (nth_error a i) as [l|] eqn:Hl; [|apply nth_error_None in Hl; lia].
+  destruct (pop (reacts (add_trace w [ICall (l_id l) h v])) (l_id l)) as [r rs'] eqn:HP.
+  match goal with |- context [run_acts E ?W ?N] => set (w2 := W) in * end.
+  assert (G12 : good w w2 [ICall (l_id l) h v] [] []).
+  { subst w2. apply good_silent; auto. }
+  assert (Hw2 : world_wf w2) by apply G12.
+  pose proof (run_acts_never_stuck E GE NS (r_acts r) w2 Hw2) as Hns.
+  destruct (run_acts E w2 (r_acts r)) as [[w3 kids]|e] eqn:HN;
+    [|intros H; inversion H; subst; apply Hns; reflexivity].
+  pose proof (run_acts_good E GE _ _ _ _ Hw2 HN) as G23.
+  pose proof (good_trans _ _ _ _ _ _ _ _ _ G12 G23) as G13.
+  assert (Hw3 : world_wf w3) by apply G23.
+  assert (Hev : evolves w w3) by apply G13.
+  destruct (Hev h hd Hn) as (hd3 & Hn3 & Hk3 & Harr3).
+  destruct (Harr3 g a Ha) as (tl & Ha3).
+  destruct (kind_eqb k KCancel && r_cancel r); [discriminate|].
+  assert (Hle3 : (S i + todo <= length (a ++ tl))%nat) by (rewrite app_length; lia).
+  specialize (IH (S i) w3 (if kind_eqb k KMutable then apply_x (r_x r) v else v) hd3 (a ++ tl) Hw3 Hn3 Ha3 Hle3).
+  destruct (deliver E k h g w3 todo (S i) _) as [[[[w4 c4] v4] cls4]|e]; [discriminate|].
+  intros H; inversion H; subst; apply IH; reflexivity.
+Qed.
+
+Lemma emit_never_stuck : forall fuel, never_stuck (emit fuel).
+Proof.
+  induction fuel as [|f IH]; intros w h v Hw; cbn [emit]; [discriminate|].
+  destruct (nth_error (hs w) h) as [hd|] eqn:Hn; [|discriminate].
+  assert (Hw0 : world_wf (add_trace w [IEmit h v])) by exact Hw.
+  pose proof (deliver_never_stuck (emit f) (emit_good f) IH (h_kind hd) h (h_gen hd)
+                (length (h_ls hd)) O (add_trace w [IEmit h v]) v hd (h_ls hd) Hw0 Hn
+                (arr_current hd) (Nat.le_refl _)) as Hd.
+  destruct (deliver (emit f) (h_kind hd) h (h_gen hd) _ (length (h_ls hd)) 0 v)
+    as [[[[w1 c1] v1] cls]|e]; [discriminate|].
+  intros H; inversion H; subst; apply Hd; reflexivity.
+Qed.
+
+Theorem run_never_stuck fuel kinds ops : run fuel (init kinds) ops <> Err Stuck.
+Proof.
+  apply run_acts_never_stuck; [apply emit_good|apply emit_never_stuck|apply init_wf].
+Qed.
+
+(* ------------------------------------------------------------------ *)
+(* The logging monitor accepts every model run                          *)
+(* ------------------------------------------------------------------ *)
+From SR Require Import Model.EventsCheck.
+
+Lemma log_scan_pending cur h v c rest : forall more,
+  log_scan cur (Some (more, h, v, c)) (log_items more h v c ++ IRet h c v :: rest) =
+  log_scan cur None rest.
+Proof.
+  induction more as [|lg more IH].
+  - cbn [log_items map app log_scan]. rewrite Nat.eqb_refl, Z.eqb_refl, eqb_reflx. reflexivity.
+  - cbn [log_items map app log_scan]. fold (log_items more h v c).
+    rewrite Nat.eqb_refl, !Z.eqb_refl, eqb_reflx. cbn [andb]. exact IH.
+Qed.
+
+Lemma log_scan_block lgs h v c rest :
+  log_scan lgs None (log_items lgs h v c ++ IRet h c v :: rest) = log_scan lgs None rest.
+Proof.
+  destruct lgs as [|lg more].
+  - reflexivity.
+  - cbn [log_items map app log_scan]. fold (log_items more h v c).
+    rewrite Z.eqb_refl. cbn [andb]. apply log_scan_pending.
+Qed.
+
+Lemma log_scan_list {A} (fl : A -> list item) (fe : A -> list ev) (l : list A) :
+  Forall (fun x => forall subs cur rest, consistent subs cur (fe x) ->
+            log_scan cur None (fl x ++ rest) = log_scan (replay_cur cur (fe x)) None rest) l ->
+  forall subs cur rest, consistent subs cur (flat_map fe l) ->
+    log_scan cur None (flat_map fl l ++ rest) = log_scan (replay_cur cur (flat_map fe l)) None rest.
+Proof.
+  induction 1 as [|x l Hx _ IH]; intros subs cur rest Hc; [reflexivity|].
+  cbn [flat_map] in *. apply consistent_app in Hc. destruct Hc as [C1 C2].
+  rewrite <- app_assoc, (Hx _ _ _ C1), replay_cur_app. eapply IH. exact C2.
+Qed.
+
+Lemma log_scan_forest :
+  forall fr subs cur rest, consistent subs cur (events fr) ->
+    log_scan cur None (flatten fr ++ rest) = log_scan (replay_cur cur (events fr)) None rest.
+Proof.
+  apply (frame_ind3
+    (fun fr => forall subs cur rest, consistent subs cur (events fr) ->
+       log_scan cur None (flatten fr ++ rest) = log_scan (replay_cur cur (events fr)) None rest)
+    (fun cl => forall h subs cur rest, consistent subs cur (events_call cl) ->
+       log_scan cur None (flatten_call h cl ++ rest) = log_scan (replay_cur cur (events_call cl)) None rest)
+    (fun ch => forall subs cur rest, consistent subs cur (events_child ch) ->
+       log_scan cur None (flatten_child ch ++ rest) = log_scan (replay_cur cur (events_child ch)) None rest)).
+  - intros h k ls0 vin calls vout c lgs Hcs subs cur rest Hc.
+    cbn [events consistent] in Hc. destruct Hc as [_ Hc].
+    apply consistent_app in Hc. destruct Hc as [C1 C2]. cbn [consistent] in C2. destruct C2 as [E _].
+    cbn [flatten events replay_cur app log_scan].
+    rewrite <- !app_assoc.
+    assert (Hcs' : Forall (fun x => forall subs cur rest, consistent subs cur (events_call x) ->
+                log_scan cur None (flatten_call h x ++ rest) =
+                log_scan (replay_cur cur (events_call x)) None rest) calls).
+    { eapply Forall_impl; [|exact Hcs]. intros cl Hcl. apply Hcl. }
+    rewrite (log_scan_list (flatten_call h) events_call calls Hcs' _ _ _ C1).
+    rewrite replay_cur_app. cbn [replay_cur]. rewrite <- E.
+    cbn [app]. apply log_scan_block.
+  - intros l vs r kids Hks h subs cur rest Hc. cbn [flatten_call events_call app log_scan] in *.
+    eapply (log_scan_list flatten_child events_child kids Hks). exact Hc.
+  - intros fr H subs cur rest Hc. cbn [flatten_child events_child] in *. eapply H. exact Hc.
+  - intros h l subs cur rest _. reflexivity.
+  - intros lgs subs cur rest _. reflexivity.
+Qed.
+
+Theorem log_monitor_accepts_model : forall fuel kinds ops w kids,
+  run fuel (init kinds) ops = Ok (w, kids) -> log_scan [] None (trace w) = true.
+Proof.
+  intros fuel kinds ops w kids HR. destruct (C18_holds _ _ _ _ _ HR) as (Ht & _ & Hc & _).
+  rewrite Ht, <- (app_nil_r (flat_map flatten_child kids)).
+  assert (HF : Forall (fun x => forall subs cur rest, consistent subs cur (events_child x) ->
+            log_scan cur None (flatten_child x ++ rest) =
+            log_scan (replay_cur cur (events_child x)) None rest) kids).
+  { apply Forall_forall. intros ch _. destruct ch as [fr|h l|lgs].
+    - intros subs cur rest Hcc. cbn [flatten_child events_child] in *. eapply log_scan_forest. exact Hcc.
+    - intros; reflexivity.
+    - intros; reflexivity. }
+  rewrite (log_scan_list flatten_child events_child kids HF _ _ _ Hc). reflexivity.
+Qed.
